@@ -44,6 +44,15 @@ def main():
     wt = tempfile.mkdtemp(prefix="seedwt.", dir="/tmp")
     os.rmdir(wt)
     meta = {"seed_id": a.seed_id, "property": a.prop, "needs": a.needs, "ran": []}
+    if a.skip_tests and os.path.exists(os.path.join(dst, "meta.json")):
+        # a re-run of the checks only: the recorded suite result (same patch, same HEAD) stays on record
+        try:
+            old = json.load(open(os.path.join(dst, "meta.json")))
+            for k in ("tests_tail", "tests_green"):
+                if old.get(k) is not None:
+                    meta[k] = old[k]
+        except Exception:  # noqa
+            pass
     try:
         r = sh(["git", "-C", "/repo", "worktree", "add", "--detach", "-f", wt, "HEAD"])
         assert r.returncode == 0, r.stderr
